@@ -227,20 +227,51 @@ def check_xy_continuation(ctx, db):
     ctx.check(ok, 'R-SHAPE', 'read_gds/XY:path-first-record', first.loc() if first is not None else top.loc(), 'the first XY record of a PATH gives the start point (with half of WIDTH) and the remaining points from the third word on')
 
 
+def check_element_buffers(ctx, db):
+    """The PATH writers fill one scratch array per element with element_center (which appends): the array
+    is emptied before the next element, otherwise every later PATH record repeats the earlier centre lines."""
+    n = 0
+    for qn in ('gdstk::FlexPath::to_gds', 'gdstk::RobustPath::to_gds', 'gdstk::FlexPath::to_oas', 'gdstk::RobustPath::to_oas'):
+        f = db.fn(qn)
+        ctx.touch(f)
+        for c in f.walk():
+            if c.k not in ('CXXMemberCallExpr', 'CallExpr') or not (c.callee or '').endswith('::element_center'):
+                continue
+            loop = next((a for a in c.ancestors() if a.k == 'ForStmt'), None)
+            arr = _strip_casts(c.args[-1])
+            if loop is None or arr.k != 'DeclRefExpr':
+                raise AnalysisBroken('%s: element_center call shape not recognised' % qn)
+            n += 1
+            key = arr.n
+            body = [s_ for s_ in loop.child('body').c if s_ is not None]
+            top = next((s_ for s_ in body if any(x is c for x in s_.walk())), None)
+            resets = [s_ for s_ in body if (is_assign(s_) and norm(s_.child('lhs').text()) == key + '.count' and s_.child('rhs').cv == 0) or
+                      (s_.k == 'CXXMemberCallExpr' and (s_.callee or '').endswith('::clear') and norm(s_.child('obj').text()) == key)]
+            declared_inside = any(v.k == 'VarDecl' and v.n == key for v in loop.child('body').walk())
+            skipping = [x for x in loop.child('body').walk() if x.k == 'ContinueStmt' and x.id > c.id and (not resets or x.id < resets[-1].id)]
+            ok = declared_inside or (bool(resets) and not skipping and (body.index(resets[-1]) > body.index(top) or body.index(resets[0]) < body.index(top)))
+            ctx.check(ok, 'R-FRESH', '%s/%s-emptied-per-element' % (qn.replace('gdstk::', ''), key), c.loc(), 'the scratch array `%s` that element_center appends to is emptied in every iteration of the element loop' % key,
+                      'the scratch array `%s` is filled by element_center for every element but never emptied inside the element loop%s: the second PATH record also contains the first element\'s centre line' % (key, ' (a `continue` skips the reset)' if skipping else ''))
+    ctx.require('R-FRESH element_center call sites', n, 4)
+
+
 def run(ctx):
     db = ctx.db
     check_writers(ctx, db)
     check_reader_types(ctx, db)
     check_reader_state(ctx, db)
     check_xy_continuation(ctx, db)
+    check_element_buffers(ctx, db)
     n = 0
     for qn in ('gdstk::read_gds', 'gdstk::gds_info', 'gdstk::gds_units', 'gdstk::gds_timestamp'):
         n += flow.check_error_checked(ctx, db.fn(qn), 'gdstk::gdsii_read_record')
     ctx.require('R-ERRCHK call sites', n, 4)
+    from . import C01  # AREF semantics of the manual: second/third XY point = origin + count x pitch, counts as written in COLROW
+    C01.check_aref(ctx, db)
 
 
 MANIFEST = dict(
-    text='Decides, for every branch-condition valuation of every GDSII writer function, that the emitted record string lies in the format manual\'s grammar for that nonterminal (regular-language inclusion), that every record carries the specification\'s data type and fixed length (even lengths for strings), that every header buffer and multi-byte payload is converted to big-endian exactly once with the right width, and that announced and written payload sizes agree; by composition every file from Library::write_gds or gdswriter_init/write_cell*/close is a <stream>. On the reader side: every arm of read_gds/gds_info/gds_units/gds_timestamp reads the payload through the accessor of the record\'s data type, the pre-swap switch matches data types to widths, element-scoped state is reset per element, record errors are checked, and a PATH\'s continuation XY records are decoded like BOUNDARY XY records. That every legal stream decodes to the layout it encodes (BOX semantics, negative WIDTH, reflected AREF lattices ...) is not decided.',
+    text='Decides, for every branch-condition valuation of every GDSII writer function, that the emitted record string lies in the format manual\'s grammar for that nonterminal (regular-language inclusion), that every record carries the specification\'s data type and fixed length (even lengths for strings), that every header buffer and multi-byte payload is converted to big-endian exactly once with the right width, and that announced and written payload sizes agree; by composition every file from Library::write_gds or gdswriter_init/write_cell*/close is a <stream>. On the reader side: every arm of read_gds/gds_info/gds_units/gds_timestamp reads the payload through the accessor of the record\'s data type, the pre-swap switch matches data types to widths, element-scoped state is reset per element, record errors are checked, and a PATH\'s continuation XY records are decoded like BOUNDARY XY records; the scratch array each PATH writer fills through element_center is emptied for every element; the AREF corners are origin + COLROW count x pitch with the counts exactly as written (exchanged before use in the rotated branch) and the reader divides by the same counts. That every legal stream decodes to the layout it encodes (BOX semantics, negative WIDTH, reflected AREF lattices ...) is not decided.',
     note='Trusted: clang front end, gx, sa/gdsgrammar.py (abstract interpreter; anything it cannot interpret is reported as an issue), the record table and BNF transcribed from the GDSII Stream Format Manual 6.0 plus two named extensions (repeated XY, Raith records). Atoms are treated as independent (over-approximation: infeasible combinations are checked too).',
     technique='abstract interpretation of writer functions into regular record languages (predicate-atom enumeration, buffer typestate) + DFA inclusion in the format grammar + table rules on the reader',
     design='§4 C03')
